@@ -154,7 +154,10 @@ check("C04",
            "state: one Identifier node per spelling among all reachable ones (incl. names of the 26 built-ins and 5 constants), and "
            "operator== on logogram/linkage/convention values <=> equal spelling; all 56 reserved words through both get_identifier "
            "overloads; long histories of 1024 (4096) keys per constructor x 3 insertion orders x 4 address modes; 70000 (200000) distinct "
-           "identifiers, each re-requested and re-read afterwards.",
+           "identifiers, each re-requested and re-read afterwards; value equalities: 5 linkage x 6 convention spellings (incl. near-misses C+ / stdcal "
+           "and a convention spelled C), every linkage, convention and transfer obtained through every public route (both overloads, "
+           "two-argument transfer, from-linkage / from-convention shorthands, a function type's transfer()), twice, in two request "
+           "orders: == and != on ALL pairs <=> same spelling(s), one node per linkage / convention spelling.",
       text="All request histories up to the bound on the real name/expression factories under controlled address orders, "
            "against a key->node reference model plus two whole-state invariants.",
       note="Identity is compared on interface pointers of the same interface type. The model identifies label(id) with "
@@ -239,8 +242,9 @@ check("C02",
            "after 1000 unrelated constructions; after the whole table was built once; every node re-read after the table was rebuilt "
            "11 times with all other rotations in units of their own on the same Lexicon); each documented accessor (primitive and named "
            "alias) must return exactly the argument given (identity for nodes, value for enumerators/qualifiers/positions/strings), "
-           "unsupplied optional parts read as absent or refuse with logic_error, settable links read back after being set. "
-           "distinct_nontrivial = distinct row variants built.",
+           "unsupplied optional parts read as absent or refuse with logic_error, settable links read back after being set; every "
+           "Scope::make_* called three times with one name and type: each redeclaration reports what ITS call was given, per-declaration "
+           "parts stay per declaration. distinct_nontrivial = distinct row variants built.",
       text="Complete enumeration of the finite space row x operand choice x optional parts on the real factories; "
            "expectations are written from the interface documentation.",
       note="Every row gives pairwise-distinct operands to different positions. make_annotation and make_token are declared "
